@@ -182,6 +182,9 @@ def run(tier, seed):
         for tree in skeletons(nmin, nmax):
             for ivar in ((0, 1) if has_variant(tree) else (0,)):
                 tasks.append((tree, 'asc', ivar, k, 'rename'))
+        if nmax <= 6:
+            for tree in skeletons(max(nmin, 4), min(nmax, 5 if tier == 'quick' else 6), require='multihist', max_hist=2):
+                tasks.append((tree, 'asc', 0, 1, 'rename'))
         for tree in skeletons(nmin, nmax, final=False):
             for ivar in ((0, 1) if has_variant(tree) else (0,)):
                 tasks.append((tree, 'asc', ivar, k, 'copy'))
